@@ -211,7 +211,7 @@ pub fn session(
     let mut objs = Vec::new();
     for (k, len) in lens.iter().enumerate() {
         let content = rng.bytes(*len);
-        let cc = match (cc_mode + k as u8) % 5 {
+        let cc = match (cc_mode as usize + k) % 5 {
             0 => None,
             1 => Some(sender::CacheControl::NoCache),
             2 => Some(sender::CacheControl::MaxStale),
